@@ -6,7 +6,7 @@ patch=$(readlink -f "$1"); id="$2"; secs="${3:-20}"
 wt=/tmp/ecalverif-mut.$$
 git -C /repo worktree add -q "$wt" HEAD
 trap 'git -C /repo worktree remove --force "$wt" >/dev/null 2>&1 || rm -rf "$wt"' EXIT
-git -C "$wt" apply "$patch"
+git -C "$wt" apply "$patch" || { echo "PATCH-DOES-NOT-APPLY $patch"; exit 3; }
 cd "$(dirname "$0")/.."
 set +e
 VERIF_REPO="$wt" VERIF_SECONDS="$secs" ./check "$id" quick
